@@ -80,6 +80,12 @@ func MisuseCells() []MisuseCell {
 	for _, m := range invalidIDs {
 		add("tx", "ro-active", m, "InvalidPageID")
 	}
+	// read-only active, begun while a write transaction that extended the file
+	// (uncommitted) is open: the valid ids are those of the committed state
+	for _, m := range invalidIDs {
+		add("tx", "ro-active-beside-writer", m, "InvalidPageID")
+	}
+	add("tx", "ro-active-beside-writer", "Page(valid)", "nil")
 	// writable active
 	for _, m := range invalidIDs {
 		add("tx", "rw-active", m, "InvalidPageID")
@@ -396,6 +402,55 @@ func RunMisuseCell(c *core.Case, cell MisuseCell, res *core.Result) {
 			return
 		}
 		if !w.Write(sortedLive()[0], 1, 17) || !w.End(OCommit) {
+			return
+		}
+
+	case cell.Recv == "tx" && cell.State == "ro-active-beside-writer":
+		// the writer allocates past the committed end of the data area and stays open
+		snap := w.F.VerifSnapshot()
+		if !w.Begin(txfile.TxOptions{}) {
+			return
+		}
+		var pages []*txfile.Page
+		var err error
+		n := int(snap.DataAvail)
+		if snap.MaxPages == 0 {
+			n = 0
+			for _, reg := range snap.DataFree {
+				n += int(reg.Count)
+			}
+			n += 12
+		}
+		wtx := w.Tx
+		if n > 0 {
+			if w.guard("AllocN(writer beside reader)", func() { pages, err = wtx.AllocN(n) }) {
+				return
+			}
+		}
+		grown := w.F.VerifSnapshot().DataEnd
+		if err != nil || len(pages) != n || grown <= end {
+			res.Status, res.Note = core.Inconclusive, "writer-could-not-extend-the-data-area"
+			w.End(ORollback)
+			return
+		}
+		res.Add("reader_beside_extending_writer", 1)
+		var tx *txfile.Tx
+		if w.guard("BeginReadonly", func() { tx, err = w.F.BeginReadonly() }) || err != nil {
+			fail("misuse-setup", "BeginReadonly failed: %v", err)
+			return
+		}
+		ok := check(txMethod(tx, cell.Method, end, 0))
+		if ok && !tx.Active() {
+			fail("misuse-effect", "%s deactivated the read transaction", cell.Name())
+			ok = false
+		}
+		if ok && !w.verifyIn(tx, w.Committed, "misuse-ro-view") {
+			ok = false
+		}
+		if !finishTx(tx, "closed") || !ok {
+			return
+		}
+		if !w.End(ORollback) {
 			return
 		}
 
